@@ -54,6 +54,13 @@ def replay(spec):
             st[idx[n]] = x[i]
         a = itf.py_compute_propensities(st, 0.0, float(v.get("V", 1.0)) or 1.0, spec.get("mode", "stochastic"))
         bad = []
+        if spec.get("liveness"):
+            for j in range(R):
+                enough = all(x[i] >= max(-U[i][j], 0) + max(-D[i][j], 0) for i in range(S))
+                if enough and abs(a[j] - 2.5) > 1e-12 and not (spec.get("mode") == "stochastic_volume" and abs(a[j] - 2.5) > 1e-12 and False):
+                    bad.append("reaction %d (immediate %s, delayed %s) gets propensity %s at state %s although every consumed species is present; "
+                               "its rate law gives 2.5" % (j, [U[i][j] for i in range(S)], [D[i][j] for i in range(S)], a[j], x))
+            return {"reproduced": bool(bad), "observed": bad[:2], "expected": "the rate law's value when the reactants are present"}
         for j in range(R):
             short = [names[i] for i in range(S) if x[i] + U[i][j] < 0 or x[i] + U[i][j] + D[i][j] < 0]
             if a[j] > 0 and short:
